@@ -383,6 +383,14 @@ def accept (A : Abs) : Bool :=
 /-- the table-level condition: the analyser accepts the effect list -/
 def WellBehaved (effs : List Eff) : Bool := accept (effs.foldl astep ainit)
 
+/-- nothing known about the caches (the state a constructor starts from) -/
+def aunknown : Abs :=
+  { shape := .entry, dx := .entry, saved := [], x := .bad, y := .bad, r := .bad, t := .bad,
+    link := false, linkP := false, fail := false }
+
+/-- the table-level condition for a constructor: the analyser accepts the list starting from NO knowledge -/
+def WellBehavedInit (effs : List Eff) : Bool := accept (effs.foldl astep aunknown)
+
 /-- data writes of an effect (looking through guards) -/
 def dataEffect : Eff → Option (Option DataW)    -- none: no data write; some none: reshape; some (some w)
   | .dataReshape _ => some none
